@@ -85,14 +85,10 @@ theorem markupExact_of_c06 (boundary : Str) (fields : List Field) (epilogue : By
   have h2 := congrArg Obs.error h
   exact ⟨h1, h2⟩
 
-theorem lowerCT_multipart (boundary : Str) (quote : Bool) (cl : Int) (fr : Except FrErr (List Bytes)) :
-    startsWithS (lowerCT ⟨some (contentTypeFor boundary quote), cl, fr⟩) cs!"multipart/" = true := by
-  unfold lowerCT contentTypeFor lower startsWithS
-  simp only [Option.getD_some, List.map_append]
-  have : List.map lowerChar cs!"multipart/form-data; boundary=" = cs!"multipart/form-data; boundary=" := by decide
-  rw [this]
-  rfl
-
+/-- **Every part is read back as the field it was written from.**  `FieldStorage.iter_items` over
+the sections of an encoded body yields, for every field list of the domain and every budget that
+covers the header blocks and text values, exactly one `FieldStorage` per field, in order, with the
+field's name, value or (file name, content type, window = the part's data range), and no error. -/
 theorem iterItems_encoded (b : Bytes) (sp : Bool) (fields : List Field) (epi : Bytes) (mr : Int)
     (hok : ∀ f ∈ fields, FieldOK f) (hbud : (textBudget fields : Int) ≤ mr) :
     iterItems (Spec.encodeBody b (fields.map Field.part) epi) sp
